@@ -341,9 +341,23 @@ CHECKS["C04"] = dict(
     ],
 )
 
+CHECKS["C08"] = dict(
+    level_text="Bounded schedule exploration of one fixed transfer (real Send over a synthetic view read in one-byte fragments, real Receive on the model file system with a dirty prior destination): which goroutine runs next is a solver-chosen value before every channel operation, select, lock/unlock, WaitGroup operation, close and go statement, and whenever the running goroutine blocks, within a delay bound around two base schedules (oldest-runnable-first and youngest-runnable-first). On every schedule inside the bound the solver-driven search shows: both calls succeed, the destination equals the source view, the set of content requests and the set of change notifications with their digests are the expected ones, neither end ever has two SendMsg or two RecvMsg calls in flight on its stream, nothing deadlocks and no goroutine is left behind.",
+    level_note="PARTIAL. Bounds: one concrete scenario (d/, d/f = 2 bytes, e = 1 byte, 4 further directories; prior destination with an older e and a stale entry), stream buffer capacity 0 and 1, delay bound 1 (quick) / 2 (thorough) per base schedule. Outside the claim: data races (the executor interleaves goroutines only at the visible operations listed and has no memory-access race detector, so 'no execution contains a data race' is NOT decided), schedules needing more delays than the bound, larger capacities, many multi-chunk files in flight, GOMAXPROCS (parallelism is abstracted as interleaving at visible operations). A schedule-dependent counterexample cannot be replayed deterministically on the real scheduler: the check replays it up to 150 times natively with seeded random pauses inside the harness transport and reports it only if one repetition fails or hangs; otherwise the result is inconclusive (exit 2). " + FS_TRUST + BASE_TRUST,
+    assumptions=["interleaving only at visible operations (channel, select, mutex, WaitGroup, close, go) - sufficient for outcomes only if the code is free of data races, which is not checked",
+                 "delay-bounded search: every schedule reachable with at most d deviations from one of two deterministic base schedules; all others are outside the claim"],
+    obligations=[
+        ob("VH_C08_schedules", dict(SCHED=1, SCHEDREV=0, FILES=2, CAP=1, NDIRS=4), Q, covers=["done"], bounds="delay bound 1 around the oldest-first base schedule, stream capacity 1"),
+        ob("VH_C08_schedules", dict(SCHED=1, SCHEDREV=1, FILES=2, CAP=1, NDIRS=4), Q, covers=["done"], bounds="delay bound 1 around the youngest-first base schedule, stream capacity 1"),
+        ob("VH_C08_schedules", dict(SCHED=1, SCHEDREV=1, FILES=2, CAP=0, NDIRS=4), Q, covers=["done"], bounds="delay bound 1 around the youngest-first base schedule, unbuffered stream"),
+        ob("VH_C08_schedules", dict(SCHED=1, SCHEDREV=0, FILES=3, CAP=0, NDIRS=2), Q, covers=["done"], bounds="delay bound 1, three files, unbuffered stream"),
+        ob("VH_C08_schedules", dict(SCHED=2, SCHEDREV=0, FILES=2, CAP=1, NDIRS=2), T, covers=["done"], bounds="delay bound 2 around the oldest-first base schedule", max_paths=2000000),
+        ob("VH_C08_schedules", dict(SCHED=2, SCHEDREV=1, FILES=2, CAP=1, NDIRS=2), T, covers=["done"], bounds="delay bound 2 around the youngest-first base schedule", max_paths=2000000),
+    ],
+)
+
 NOT_APPLICABLE = {
-    "C08": "quantifies over schedules and includes data-race freedom and non-overlap of stream calls; the hand-written SSA executor runs goroutines under one cooperative schedule and cannot enumerate interleavings or observe races, and no Go engine that can is installed (DESIGN.md §7)",
 }
-for _p in ["C01","C02","C03","C04","C05","C06","C07","C09","C10","C11","C13","C14","C15","C16","C17","C18","C19","C20"]:
+for _p in ["C01","C02","C03","C04","C05","C06","C07","C08","C09","C10","C11","C13","C14","C15","C16","C17","C18","C19","C20"]:
     if _p not in CHECKS:
         NOT_APPLICABLE[_p] = "harness for this property not built yet (work in progress); see DESIGN.md §8 fall-back rule"
